@@ -12,7 +12,7 @@ ASSUMPTIONS = ["oracle: numpy indexing of the dense array; values only", "out-of
 REQUIRED_FEATURES = ["negative_int", "bound_beyond_end", "negative_step", "empty_result", "rl_mask", "rl_mask_not_canonical", "dense_mask", "list_of_bools_mask", "small_index_dtype", "window_pair", "list_with_repeats", "close_float_values",
                      "step_larger_than_run"]
 BOUNDS = {"quick": "all arrays over {0,1,2} of length 1..4 and those of length 5 starting with 0 x {every int in [-L,L-1]; every list of length<=2; every dense and run-length mask; every slice with "
-                   "start,stop in {None} u [-(L+2),L+2] and step in {None,+-1,+-2,+-3,+-4}; every vector of 1-2 windows}",
+                   "start,stop in {None} u [-(L+2),L+2] and step in {None,+-1,+-2,+-3,+-4}; every vector of 1-2 windows}; list-of-bools masks; close-float arrays; two 40-element arrays; 100- and 200-element arrays indexed in int8 / uint8 / int16 / int32",
           "thorough": "length 1..6 over {0,1,2} (first element fixed to 0 for L>=5) and {0,1} up to L=8"}
 STEPS = (None, 1, 2, 3, 4, -1, -2, -3, -4)
 
